@@ -1,8 +1,614 @@
-(* C05 lemmas (filled in below) *)
-From Coq Require Import QArith List String Bool Lqa Lia.
+(* C05 lemmas about Model/MeatDairy.v *)
+From Coq Require Import QArith List String Bool Lqa Lia Arith.
 From Allfed Require Import Base.StrUtil Model.MeatDairy.
 Import ListNotations.
 Open Scope Q_scope.
+Local Arguments Qred : simpl never.
+
+(* ------------------------------------------------------------------ small facts *)
+Lemma Qred_eq x : Qred x == x.
+Proof. apply Qred_correct. Qed.
+
+Lemma Qle_bool_true x y : Qle_bool x y = true <-> x <= y.
+Proof. apply Qle_bool_iff. Qed.
+
+Lemma Qle_bool_false x y : Qle_bool x y = false -> y < x.
+Proof.
+  intro H. destruct (Qlt_le_dec y x) as [L|L]; auto.
+  apply Qle_bool_iff in L. congruence.
+Qed.
+
+Lemma Qmax0_nonneg x : 0 <= Qmax0 x.
+Proof.
+  unfold Qmax0. destruct (Qle_bool 0 x) eqn:E.
+  - apply Qle_bool_iff; exact E.
+  - apply Qle_refl.
+Qed.
+
+Lemma Qmax0_ge x : x <= Qmax0 x.
+Proof.
+  unfold Qmax0. destruct (Qle_bool 0 x) eqn:E.
+  - apply Qle_refl.
+  - apply Qle_bool_false in E. lra.
+Qed.
+
+Lemma Qmax0_nonpos x : x <= 0 -> Qmax0 x == 0.
+Proof.
+  intro H. unfold Qmax0. destruct (Qle_bool 0 x) eqn:E.
+  - apply Qle_bool_iff in E. lra.
+  - reflexivity.
+Qed.
+
+Lemma Qmin'_le_r x y : Qmin' x y <= y.
+Proof.
+  unfold Qmin'. destruct (Qle_bool x y) eqn:E.
+  - apply Qle_bool_iff; exact E.
+  - apply Qle_refl.
+Qed.
+
+Lemma Qmin'_le_l x y : Qmin' x y <= x.
+Proof.
+  unfold Qmin'. destruct (Qle_bool x y) eqn:E.
+  - apply Qle_refl.
+  - apply Qle_bool_false in E. lra.
+Qed.
+
+(* ------------------------------------------------------------------ sums and running totals *)
+Lemma qsum_cons x l : qsum (x :: l) == x + qsum l.
+Proof. unfold qsum; simpl. apply Qred_eq. Qed.
+
+(* sum of the first k elements *)
+Fixpoint sum_first (k : nat) (l : list Q) : Q :=
+  match k, l with
+  | O, _ => 0
+  | _, [] => 0
+  | S k', x :: t => x + sum_first k' t
+  end.
+
+Lemma sum_first_all l : sum_first (List.length l) l == qsum l.
+Proof. induction l; cbn [sum_first List.length]. reflexivity. rewrite qsum_cons, IHl. reflexivity. Qed.
 
 Lemma running_from_length acc l : List.length (running_from acc l) = List.length l.
 Proof. revert acc; induction l; intros; simpl; auto. Qed.
+
+Lemma running_from_nth l : forall acc acc' m, acc == acc' -> (m < List.length l)%nat ->
+  nth m (running_from acc l) 0 == acc' + sum_first (S m) l.
+Proof.
+  induction l as [|x t IH]; intros acc acc' m He Hm; simpl in Hm. lia.
+  destruct m as [|m].
+  - simpl. rewrite Qred_eq, He. destruct t; lra.
+  - cbn [running_from nth]. rewrite (IH (Qred (acc + x)) (acc' + x) m).
+    + cbn [sum_first]. lra.
+    + rewrite Qred_eq, He. reflexivity.
+    + lia.
+Qed.
+
+Lemma running_nth l m : (m < List.length l)%nat -> nth m (running l) 0 == sum_first (S m) l.
+Proof. intro H. unfold running. rewrite (running_from_nth l 0 0 m); [lra|reflexivity|exact H]. Qed.
+
+Lemma running_last l : (0 < List.length l)%nat -> nth (List.length l - 1) (running l) 0 == qsum l.
+Proof.
+  intro H. rewrite running_nth by lia.
+  replace (S (List.length l - 1)) with (List.length l) by lia. apply sum_first_all.
+Qed.
+
+Lemma sum_first_ext : forall k l l', List.length l = List.length l' ->
+  (forall i, (i < k)%nat -> nth i l 0 == nth i l' 0) -> sum_first k l == sum_first k l'.
+Proof.
+  induction k; intros l l' HL H; simpl. reflexivity.
+  destruct l as [|x t], l' as [|y u]; simpl in HL; try discriminate; try reflexivity.
+  rewrite (H 0%nat) by lia. simpl.
+  rewrite (IHk t u); [reflexivity|lia|].
+  intros i Hi. apply (H (S i)). lia.
+Qed.
+
+(* sums over index ranges *)
+Lemma qsum_map_ext {A} (f g : A -> Q) l : (forall x, In x l -> f x == g x) -> qsum (map f l) == qsum (map g l).
+Proof.
+  induction l; intro H; cbn [map]. reflexivity.
+  rewrite !qsum_cons, IHl, (H a). reflexivity. left; auto. intros; apply H; right; auto.
+Qed.
+
+Lemma qsum_map_plus {A} (f g : A -> Q) l : qsum (map (fun x => f x + g x) l) == qsum (map f l) + qsum (map g l).
+Proof. induction l; cbn [map]. unfold qsum; cbn [fold_right]; ring. rewrite !qsum_cons, IHl. ring. Qed.
+
+Lemma qsum_map_scale {A} (f : A -> Q) k l : qsum (map (fun x => f x * k) l) == qsum (map f l) * k.
+Proof. induction l; cbn [map]. unfold qsum; cbn [fold_right]; ring. rewrite !qsum_cons, IHl. ring. Qed.
+
+Lemma qsum_nth_seq l : forall s, qsum (map (fun i => nth (i - s) l 0) (seq s (List.length l))) == qsum l.
+Proof.
+  induction l as [|x t IH]; intro s; cbn [List.length seq map]. reflexivity.
+  rewrite !qsum_cons. replace (s - s)%nat with 0%nat by lia. cbn [nth].
+  rewrite <- (IH (S s)). apply Qplus_comp. reflexivity.
+  apply qsum_map_ext. intros i Hi. apply in_seq in Hi.
+  replace (i - s)%nat with (S (i - S s)) by lia. reflexivity.
+Qed.
+
+Lemma qsum_nth_seq0 l n : List.length l = n -> qsum (map (fun i => nth i l 0) (seq 0 n)) == qsum l.
+Proof.
+  intros <-. rewrite <- (qsum_nth_seq l 0). apply qsum_map_ext. intros i _. replace (i - 0)%nat with i by lia. reflexivity.
+Qed.
+
+(* ------------------------------------------------------------------ vadd, class series *)
+Lemma vadd_length a b : List.length a = List.length b -> List.length (vadd a b) = List.length a.
+Proof. intro H. unfold vadd. rewrite map_length, combine_length. lia. Qed.
+
+Lemma vadd_nth : forall a b i, List.length a = List.length b -> nth i (vadd a b) 0 == nth i a 0 + nth i b 0.
+Proof.
+  induction a as [|x a IH]; intros [|y b] i H; simpl in H; try discriminate.
+  - destruct i; simpl; lra.
+  - destruct i; simpl. apply Qred_eq. apply IH. lia.
+Qed.
+
+Lemma zeros_length n : List.length (zeros n) = n.
+Proof. apply repeat_length. Qed.
+
+Lemma zeros_nth n i : nth i (zeros n) 0 = 0.
+Proof. unfold zeros. revert i; induction n; intros [|i]; simpl; auto. Qed.
+
+(* which class an animal's slaughter list goes to: the if-chain of get_meat_produced *)
+Definition is_chicken (a : animal) : bool := String.eqb (a_type a) "chicken".
+Definition is_pig (a : animal) : bool := negb (is_chicken a) && String.eqb (a_type a) "pig".
+Definition is_small (a : animal) : bool := negb (is_chicken a) && negb (is_pig a) && String.eqb (a_size a) "small".
+Definition is_medium (a : animal) : bool := negb (is_chicken a) && negb (is_pig a) && String.eqb (a_size a) "medium".
+Definition is_large (a : animal) : bool := negb (is_chicken a) && negb (is_pig a) && String.eqb (a_size a) "large".
+
+(* sum over the animals selected by f of month i of the list sel *)
+Fixpoint sumby (sel : animal -> list Q) (f : animal -> bool) (herd : list animal) (i : nat) : Q :=
+  match herd with
+  | [] => 0
+  | a :: t => (if f a then nth i (sel a) 0 else 0) + sumby sel f t i
+  end.
+
+Definition count (f : animal -> bool) (herd : list animal) : nat := List.length (filter f herd).
+
+(* every monthly list of the herd has length n *)
+Definition wf (n : nat) (herd : list animal) : Prop :=
+  Forall (fun a => List.length (a_slaughter a) = n /\ List.length (a_population a) = n) herd.
+
+Definition wfc (n : nat) (c : classes) : Prop :=
+  List.length (chickens c) = n /\ List.length (pigs c) = n /\ List.length (small_nc c) = n /\
+  List.length (medium_np c) = n /\ List.length (large c) = n.
+
+Lemma class_step_cases c a :
+  class_step c a =
+  if is_chicken a then
+    {| chickens := a_slaughter a; pigs := pigs c; small_nc := small_nc c; medium_np := medium_np c; large := large c |}
+  else if is_pig a then
+    {| chickens := chickens c; pigs := a_slaughter a; small_nc := small_nc c; medium_np := medium_np c; large := large c |}
+  else if is_small a then
+    {| chickens := chickens c; pigs := pigs c; small_nc := vadd (small_nc c) (a_slaughter a);
+       medium_np := medium_np c; large := large c |}
+  else if is_medium a then
+    {| chickens := chickens c; pigs := pigs c; small_nc := small_nc c;
+       medium_np := vadd (medium_np c) (a_slaughter a); large := large c |}
+  else if is_large a then
+    {| chickens := chickens c; pigs := pigs c; small_nc := small_nc c; medium_np := medium_np c;
+       large := vadd (large c) (a_slaughter a) |}
+  else c.
+Proof.
+  unfold class_step, is_small, is_medium, is_large, is_pig, is_chicken.
+  destruct (String.eqb (a_type a) "chicken") eqn:E1; simpl. reflexivity.
+  destruct (String.eqb (a_type a) "pig") eqn:E2; simpl. reflexivity.
+  destruct (String.eqb (a_size a) "small") eqn:E3; simpl. reflexivity.
+  destruct (String.eqb (a_size a) "medium") eqn:E4; simpl. reflexivity.
+  reflexivity.
+Qed.
+
+Lemma class_step_wfc n c a : wfc n c -> List.length (a_slaughter a) = n -> wfc n (class_step c a).
+Proof.
+  intros (H1 & H2 & H3 & H4 & H5) Ha. rewrite class_step_cases.
+  destruct (is_chicken a); [repeat split; simpl; auto|].
+  destruct (is_pig a); [repeat split; simpl; auto|].
+  destruct (is_small a); [repeat split; simpl; auto; rewrite vadd_length; lia|].
+  destruct (is_medium a); [repeat split; simpl; auto; rewrite vadd_length; lia|].
+  destruct (is_large a); [repeat split; simpl; auto; rewrite vadd_length; lia|].
+  repeat split; auto.
+Qed.
+
+(* the additive classes: value after the fold = value before + the selected animals *)
+Lemma fold_classes_add n herd : forall c, wfc n c -> wf n herd -> forall i,
+  let r := fold_left class_step herd c in
+  wfc n r /\
+  nth i (small_nc r) 0 == nth i (small_nc c) 0 + sumby a_slaughter is_small herd i /\
+  nth i (medium_np r) 0 == nth i (medium_np c) 0 + sumby a_slaughter is_medium herd i /\
+  nth i (large r) 0 == nth i (large c) 0 + sumby a_slaughter is_large herd i.
+Proof.
+  induction herd as [|a t IH]; intros c Hc Hw i; simpl.
+  - repeat split; try apply Hc; lra.
+  - destruct (Forall_inv Hw) as [Ha _]. pose proof (Forall_inv_tail Hw) as Ht.
+    assert (Hc' := class_step_wfc n c a Hc Ha).
+    destruct (IH (class_step c a) Hc' Ht i) as (W & S1 & S2 & S3).
+    split; [exact W|].
+    rewrite S1, S2, S3. clear S1 S2 S3 W IH.
+    destruct Hc as (H1 & H2 & H3 & H4 & H5).
+    rewrite class_step_cases.
+    unfold is_small, is_medium, is_large.
+    destruct (is_chicken a); simpl; [repeat split; lra|].
+    destruct (is_pig a); simpl; [repeat split; lra|].
+    destruct (String.eqb (a_size a) "small") eqn:E3.
+    { apply String.eqb_eq in E3. rewrite E3. simpl. rewrite vadd_nth by lia. repeat split; lra. }
+    destruct (String.eqb (a_size a) "medium") eqn:E4.
+    { apply String.eqb_eq in E4. rewrite E4. simpl. rewrite vadd_nth by lia. repeat split; lra. }
+    destruct (String.eqb (a_size a) "large") eqn:E5; simpl.
+    { rewrite vadd_nth by lia. repeat split; lra. }
+    repeat split; lra.
+Qed.
+
+(* the two ASSIGNED classes: with at most one chicken / pig entry the result is the sum as well *)
+Lemma class_step_chickens c a :
+  chickens (class_step c a) = if is_chicken a then a_slaughter a else chickens c.
+Proof.
+  rewrite class_step_cases.
+  destruct (is_chicken a), (is_pig a), (is_small a), (is_medium a), (is_large a); reflexivity.
+Qed.
+
+Lemma class_step_pigs c a :
+  pigs (class_step c a) = if is_chicken a then pigs c else if is_pig a then a_slaughter a else pigs c.
+Proof.
+  rewrite class_step_cases.
+  destruct (is_chicken a), (is_pig a), (is_small a), (is_medium a), (is_large a); reflexivity.
+Qed.
+
+Lemma sumby_none sel f herd i : (List.length (filter f herd) = 0)%nat -> sumby sel f herd i == 0.
+Proof.
+  induction herd as [|b t IH]; simpl; intro H. reflexivity.
+  destruct (f b); simpl in H. lia. rewrite IH by exact H. lra.
+Qed.
+
+Lemma is_pig_not_chicken a : is_chicken a = true -> is_pig a = false.
+Proof. unfold is_pig. intros ->. reflexivity. Qed.
+
+Lemma fold_classes_assign herd : forall c i,
+  let r := fold_left class_step herd c in
+  ((count is_chicken herd = 0)%nat -> chickens r = chickens c) /\
+  ((count is_chicken herd = 1)%nat -> nth i (chickens r) 0 == sumby a_slaughter is_chicken herd i) /\
+  ((count is_pig herd = 0)%nat -> pigs r = pigs c) /\
+  ((count is_pig herd = 1)%nat -> nth i (pigs r) 0 == sumby a_slaughter is_pig herd i).
+Proof.
+  induction herd as [|a t IH]; intros c i; cbn [fold_left].
+  - unfold count; simpl. repeat split; auto; intros; lia.
+  - destruct (IH (class_step c a) i) as (C0 & C1 & P0 & P1). clear IH.
+    rewrite class_step_chickens in C0. rewrite class_step_pigs in P0.
+    unfold count in *. cbn [filter sumby].
+    destruct (is_chicken a) eqn:Ec.
+    + rewrite (is_pig_not_chicken a Ec). cbn [List.length].
+      repeat split; intro H; try lia.
+      * assert (H0 : (List.length (filter is_chicken t) = 0)%nat) by lia.
+        rewrite (C0 H0). rewrite (sumby_none _ _ _ _ H0). lra.
+      * apply P0; exact H.
+      * rewrite (P1 H). lra.
+    + destruct (is_pig a) eqn:Ep; cbn [List.length].
+      * repeat split; intro H; try lia.
+        -- apply C0; exact H.
+        -- rewrite (C1 H). lra.
+        -- assert (H0 : (List.length (filter is_pig t) = 0)%nat) by lia.
+           rewrite (P0 H0). rewrite (sumby_none _ _ _ _ H0). lra.
+      * repeat split; intro H.
+        -- apply C0; exact H.
+        -- rewrite (C1 H). lra.
+        -- apply P0; exact H.
+        -- rewrite (P1 H). lra.
+Qed.
+
+Definition at_most_one (f : animal -> bool) (herd : list animal) : Prop := (count f herd <= 1)%nat.
+
+(* the five class series, month i, as sums over the herd *)
+Lemma get_meat_produced_spec n herd i : wf n herd -> at_most_one is_chicken herd -> at_most_one is_pig herd ->
+  let c := get_meat_produced herd in
+  wfc (List.length (a_slaughter (hd no_animal herd))) c /\
+  (herd <> [] -> wfc n c) /\
+  nth i (chickens c) 0 == sumby a_slaughter is_chicken herd i /\
+  nth i (pigs c) 0 == sumby a_slaughter is_pig herd i /\
+  nth i (small_nc c) 0 == sumby a_slaughter is_small herd i /\
+  nth i (medium_np c) 0 == sumby a_slaughter is_medium herd i /\
+  nth i (large c) 0 == sumby a_slaughter is_large herd i.
+Proof.
+  intros Hw Hc Hp. unfold get_meat_produced.
+  set (n0 := List.length (a_slaughter (hd no_animal herd))).
+  set (c0 := {| chickens := zeros n0; pigs := zeros n0; small_nc := zeros n0; medium_np := zeros n0; large := zeros n0 |}).
+  assert (W0 : wfc n0 c0) by (unfold wfc, c0; simpl; rewrite !zeros_length; auto).
+  assert (Hw0 : wf n0 herd).
+  { destruct herd as [|a t]. constructor. destruct (Forall_inv Hw) as [Ha _]. subst n0; simpl. rewrite Ha. exact Hw. }
+  destruct (fold_classes_add n0 herd c0 W0 Hw0 i) as (W & S1 & S2 & S3).
+  destruct (fold_classes_assign herd c0 i) as (C0 & C1 & P0 & P1).
+  cbv zeta in *.
+  split; [exact W|]. split.
+  { intro Hne. destruct herd as [|a t]. congruence. destruct (Forall_inv Hw) as [Ha _].
+    subst n0; simpl in *. rewrite Ha in W. exact W. }
+  split; [|split]; [| |].
+  - unfold at_most_one in Hc. destruct (count is_chicken herd) as [|[|k]] eqn:E; try lia.
+    + rewrite (C0 eq_refl). unfold c0; simpl. rewrite zeros_nth, (sumby_none _ _ _ _ E). reflexivity.
+    + apply C1; reflexivity.
+  - unfold at_most_one in Hp. destruct (count is_pig herd) as [|[|k]] eqn:E; try lia.
+    + rewrite (P0 eq_refl). unfold c0; simpl. rewrite zeros_nth, (sumby_none _ _ _ _ E). reflexivity.
+    + apply P1; reflexivity.
+  - assert (Z1 : nth i (small_nc c0) 0 = 0) by apply zeros_nth.
+    assert (Z2 : nth i (medium_np c0) 0 = 0) by apply zeros_nth.
+    assert (Z3 : nth i (large c0) 0 = 0) by apply zeros_nth.
+    rewrite Z1 in S1; rewrite Z2 in S2; rewrite Z3 in S3.
+    repeat split; [rewrite S1|rewrite S2|rewrite S3]; lra.
+Qed.
+
+(* per-head yield of an animal: chicken, pig, then by size; nothing for an unknown size *)
+Definition head_kcal (y : yields) (a : animal) : Q :=
+  if is_chicken a then KPC y else if is_pig a then KPP y else if is_small a then KPS y
+  else if is_medium a then KPM y else if is_large a then KPL y else 0.
+
+Fixpoint herd_energy (y : yields) (herd : list animal) (i : nat) : Q :=
+  match herd with
+  | [] => 0
+  | a :: t => nth i (a_slaughter a) 0 * head_kcal y a + herd_energy y t i
+  end.
+
+Lemma herd_energy_classes y herd i :
+  herd_energy y herd i ==
+  sumby a_slaughter is_chicken herd i * KPC y + sumby a_slaughter is_pig herd i * KPP y +
+  sumby a_slaughter is_small herd i * KPS y + sumby a_slaughter is_medium herd i * KPM y +
+  sumby a_slaughter is_large herd i * KPL y.
+Proof.
+  induction herd as [|a t IH]; simpl. ring.
+  rewrite IH. unfold head_kcal, is_small, is_medium, is_large, is_pig.
+  destruct (is_chicken a); simpl; [ring|].
+  destruct (String.eqb (a_type a) "pig"); simpl; [ring|].
+  destruct (String.eqb (a_size a) "small") eqn:E1.
+  { apply String.eqb_eq in E1. rewrite E1. simpl. ring. }
+  destruct (String.eqb (a_size a) "medium") eqn:E2.
+  { apply String.eqb_eq in E2. rewrite E2. simpl. ring. }
+  destruct (String.eqb (a_size a) "large") eqn:E3; simpl; ring.
+Qed.
+
+Lemma each_month_meat_length y d c : List.length (each_month_meat y d c) = List.length (small_nc c).
+Proof. unfold each_month_meat. rewrite map_length, seq_length. reflexivity. Qed.
+
+Lemma each_month_meat_nth y d c i : (i < List.length (small_nc c))%nat ->
+  nth i (each_month_meat y d c) 0 ==
+  (nth i (chickens c) 0 * KPC y + nth i (pigs c) 0 * KPP y + nth i (small_nc c) 0 * KPS y +
+   nth i (medium_np c) 0 * KPM y + nth i (large c) 0 * KPL y) * (1 - d / 100).
+Proof.
+  intro H. unfold each_month_meat.
+  set (f := fun i0 => meat_after_distribution_waste y d (nth i0 (chickens c) 0) (nth i0 (pigs c) 0)
+                        (nth i0 (small_nc c) 0) (nth i0 (medium_np c) 0) (nth i0 (large c) 0)).
+  assert (E : nth i (map f (seq 0 (List.length (small_nc c)))) 0 = f (nth i (seq 0 (List.length (small_nc c))) 0%nat)).
+  { rewrite <- (map_nth f). apply nth_indep. rewrite map_length, seq_length. exact H. }
+  rewrite E, seq_nth by exact H. simpl. unfold f, meat_after_distribution_waste. apply Qred_eq.
+Qed.
+
+(* MAIN: monthly meat = sum over the herd of heads x per-head yield, less distribution waste *)
+Lemma meat_monthly n y d herd i : herd <> [] -> wf n herd -> at_most_one is_chicken herd -> at_most_one is_pig herd ->
+  (i < n)%nat ->
+  nth i (mo_monthly (meat_from_herd y d herd)) 0 == herd_energy y herd i * (1 - d / 100).
+Proof.
+  intros Hne Hw Hc Hp Hi. unfold meat_from_herd; simpl.
+  destruct (get_meat_produced_spec n herd i Hw Hc Hp) as (_ & W & S1 & S2 & S3 & S4 & S5).
+  destruct (W Hne) as (_ & _ & L3 & _).
+  rewrite each_month_meat_nth by lia.
+  rewrite S1, S2, S3, S4, S5, herd_energy_classes. reflexivity.
+Qed.
+
+Lemma meat_monthly_length n y d herd : herd <> [] -> wf n herd -> at_most_one is_chicken herd -> at_most_one is_pig herd ->
+  List.length (mo_monthly (meat_from_herd y d herd)) = n.
+Proof.
+  intros Hne Hw Hc Hp. unfold meat_from_herd; simpl. rewrite each_month_meat_length.
+  destruct (get_meat_produced_spec n herd 0 Hw Hc Hp) as (_ & W & _).
+  destruct (W Hne) as (_ & _ & L3 & _). exact L3.
+Qed.
+
+(* total = sum of the months (linearity) for ANY five series of a common length *)
+Lemma meat_summed_is_sum y d c n : wfc n c -> qsum (each_month_meat y d c) == meat_summed y d c.
+Proof.
+  intros (H1 & H2 & H3 & H4 & H5). unfold each_month_meat, meat_summed, meat_after_distribution_waste.
+  rewrite Qred_eq, H3.
+  rewrite (qsum_map_ext _ (fun i => (nth i (chickens c) 0 * KPC y + nth i (pigs c) 0 * KPP y + nth i (small_nc c) 0 * KPS y +
+                                     nth i (medium_np c) 0 * KPM y + nth i (large c) 0 * KPL y) * (1 - d / 100))).
+  2:{ intros i _. apply Qred_eq. }
+  rewrite qsum_map_scale.
+  rewrite !qsum_map_plus, !qsum_map_scale.
+  rewrite !qsum_nth_seq0 by assumption. reflexivity.
+Qed.
+
+Lemma meat_summed_spec n y d herd : herd <> [] -> wf n herd -> at_most_one is_chicken herd -> at_most_one is_pig herd ->
+  mo_summed (meat_from_herd y d herd) == qsum (mo_monthly (meat_from_herd y d herd)).
+Proof.
+  intros Hne Hw Hc Hp. unfold meat_from_herd; simpl.
+  destruct (get_meat_produced_spec n herd 0 Hw Hc Hp) as (_ & W & _).
+  symmetry. apply (meat_summed_is_sum y d _ n). exact (W Hne).
+Qed.
+
+(* ------------------------------------------------------------------ milk *)
+Lemma fold_dairy n herd : forall acc, List.length acc = n -> wf n herd -> forall i,
+  let r := fold_left dairy_step herd acc in
+  List.length r = n /\ nth i r 0 == nth i acc 0 + sumby a_population milk_bearing herd i.
+Proof.
+  induction herd as [|a t IH]; intros acc Ha Hw i; simpl.
+  - split. exact Ha. lra.
+  - destruct (Forall_inv Hw) as [_ Hp]. pose proof (Forall_inv_tail Hw) as Ht.
+    unfold dairy_step at 2 4. destruct (milk_bearing a).
+    + destruct (IH (vadd acc (a_population a)) (eq_trans (vadd_length _ _ (eq_trans Ha (eq_sym Hp))) Ha) Ht i) as (L & S).
+      split. exact L. rewrite S, vadd_nth by lia. lra.
+    + destruct (IH acc Ha Ht i) as (L & S). split. exact L. rewrite S. lra.
+Qed.
+
+Lemma dairy_population_spec n herd i : herd <> [] -> wf n herd ->
+  List.length (dairy_population herd) = n /\
+  nth i (dairy_population herd) 0 == sumby a_population milk_bearing herd i.
+Proof.
+  intros Hne Hw. unfold dairy_population.
+  assert (L0 : List.length (zeros (List.length (a_population (hd no_animal herd)))) = n).
+  { rewrite zeros_length. destruct herd as [|a t]. congruence. destruct (Forall_inv Hw) as [_ Hp]. exact Hp. }
+  destruct (fold_dairy n herd _ L0 Hw i) as (L & S). split. exact L.
+  rewrite S, zeros_nth. lra.
+Qed.
+
+Lemma milk_nth add y d r herd i : (i < List.length (dairy_population herd))%nat ->
+  nth i (milk_kcals add y d r herd) 0 ==
+  if add then nth i (dairy_population herd) 0 * y / 12 / 1000 * 1000 * MILK_KCALS / E9 * (1 - d / 100) * (1 - r / 100)
+  else 0.
+Proof.
+  intro H. unfold milk_kcals.
+  set (f := fun p => if add then milk_postwaste d r (monthly_milk_tons y p) else 0).
+  assert (E : nth i (map f (dairy_population herd)) 0 = f (nth i (dairy_population herd) 0)).
+  { rewrite <- (map_nth f). apply nth_indep. rewrite map_length. exact H. }
+  rewrite E. unfold f. destruct add; [|reflexivity].
+  unfold milk_postwaste, monthly_milk_tons. apply Qred_eq.
+Qed.
+
+(* ------------------------------------------------------------------ feed and grass eaten *)
+Lemma feed_species_bounds eg ef req rum grass feed :
+  0 < eg -> 0 < ef -> 0 <= grass -> 0 <= feed ->
+  let r := feed_species eg ef req rum grass feed in
+  0 <= fst r /\ 0 <= snd r /\ (0 <= req -> fst r <= grass /\ snd r <= feed) /\ (feed == 0 -> snd r == 0).
+Proof.
+  intros Heg Hef Hg Hf. unfold feed_species.
+  destruct (Qeq_bool req 0) eqn:E0; cbn [fst snd].
+  { split; [lra|]. split; [lra|]. split; [intros; split; lra|intro Hz; exact Hz]. }
+  set (neg := if rum then grass * eg else 0).
+  assert (Hneg : 0 <= neg).
+  { unfold neg. destruct rum; [nra|lra]. }
+  destruct (Qle_bool req neg) eqn:E1; cbn [fst snd].
+  { apply Qle_bool_iff in E1.
+    assert (D : req / eg <= grass).
+    { unfold neg in E1. destruct rum.
+      - apply Qle_shift_div_r; lra.
+      - assert (req / eg <= 0). { apply Qle_shift_div_r. lra. lra. } lra. }
+    split; [lra|]. split; [lra|]. split.
+    - intro Hr. assert (0 <= req / eg) by (apply Qle_shift_div_l; lra). split; lra.
+    - intro Hz; exact Hz. }
+  apply Qle_bool_false in E1.
+  destruct (Qle_bool neg 0) eqn:E2; cbn [negb fst snd].
+  - (* no grass energy *)
+    apply Qle_bool_iff in E2.
+    destruct (Qle_bool req (feed * ef)) eqn:E3; cbn [fst snd].
+    + apply Qle_bool_iff in E3.
+      assert (D : req / ef <= feed) by (apply Qle_shift_div_r; lra).
+      assert (P : 0 <= req / ef) by (apply Qle_shift_div_l; lra).
+      split; [lra|]. split; [lra|]. split.
+      * intro Hr. split; lra.
+      * intro Hz. rewrite Hz in E3. lra.
+    + split; [lra|]. split; [lra|]. split.
+      * intro Hr. split; lra.
+      * intro Hz; reflexivity.
+  - apply Qle_bool_false in E2.
+    destruct (Qle_bool (req - neg) (feed * ef)) eqn:E3; cbn [fst snd].
+    + apply Qle_bool_iff in E3.
+      assert (D : (req - neg) / ef <= feed) by (apply Qle_shift_div_r; lra).
+      assert (P : 0 <= (req - neg) / ef) by (apply Qle_shift_div_l; lra).
+      split; [lra|]. split; [lra|]. split.
+      * intro Hr. split; lra.
+      * intro Hz. rewrite Hz in E3. lra.
+    + split; [lra|]. split; [lra|]. split.
+      * intro Hr. split; lra.
+      * intro Hz; reflexivity.
+Qed.
+
+Definition eaters_ok (es : list eater) : Prop := Forall (fun e => 0 < e_eg e /\ 0 < e_ef e) es.
+Definition reqs_nonneg (es : list eater) : Prop := Forall (fun e => 0 <= e_req e) es.
+
+Lemma feed_animals_bounds es : forall grass feed, eaters_ok es -> 0 <= grass -> 0 <= feed ->
+  let r := feed_animals es grass feed in
+  0 <= fst r /\ 0 <= snd r /\ (reqs_nonneg es -> fst r <= grass /\ snd r <= feed) /\ (feed == 0 -> snd r == 0).
+Proof.
+  unfold feed_animals.
+  induction es as [|e t IH]; intros grass feed Hok Hg Hf; simpl.
+  - split; [lra|]. split; [lra|]. split; [intros; split; lra|intro Hz; exact Hz].
+  - destruct (Forall_inv Hok) as [Heg Hef]. pose proof (Forall_inv_tail Hok) as Hok'.
+    destruct (feed_species_bounds (e_eg e) (e_ef e) (e_req e) (e_ruminant e) grass feed Heg Hef Hg Hf)
+      as (A & B & C & D).
+    destruct (feed_species (e_eg e) (e_ef e) (e_req e) (e_ruminant e) grass feed) as [g1 f1] eqn:E. simpl in *.
+    destruct (IH g1 f1 Hok' A B) as (A' & B' & C' & D').
+    split; [exact A'|]. split; [exact B'|]. split.
+    + intro H. pose proof (Forall_inv H) as Hr. pose proof (Forall_inv_tail H) as Hrt.
+      destruct (C Hr). destruct (C' Hrt). split; lra.
+    + intro Hz. apply D'. apply D. exact Hz.
+Qed.
+
+Lemma used_le_available es grass feed : eaters_ok es -> 0 <= grass -> 0 <= feed ->
+  month_grass_used es grass feed <= grass /\ month_feed_used es grass feed <= feed.
+Proof.
+  intros Hok Hg Hf. unfold month_grass_used, month_feed_used.
+  destruct (feed_animals_bounds es grass feed Hok Hg Hf) as (A & B & _). lra.
+Qed.
+
+Lemma used_nonneg es grass feed : eaters_ok es -> reqs_nonneg es -> 0 <= grass -> 0 <= feed ->
+  0 <= month_grass_used es grass feed /\ 0 <= month_feed_used es grass feed.
+Proof.
+  intros Hok Hr Hg Hf. unfold month_grass_used, month_feed_used.
+  destruct (feed_animals_bounds es grass feed Hok Hg Hf) as (_ & _ & C & _). destruct (C Hr). lra.
+Qed.
+
+Lemma no_feed_none_eaten es grass : eaters_ok es -> 0 <= grass -> month_feed_used es grass 0 == 0.
+Proof.
+  intros Hok Hg. unfold month_feed_used.
+  destruct (feed_animals_bounds es grass 0 Hok Hg (Qle_refl 0)) as (_ & _ & _ & D).
+  rewrite D by reflexivity. lra.
+Qed.
+
+(* ------------------------------------------------------------------ the charge of the final round *)
+Lemma increase_month_feed_ge b f i mb mf tc : f <= snd (increase_month b f i mb mf tc).
+Proof. unfold increase_month; simpl. generalize (Qmax0_nonneg (Qmin' (
+  (if Qle_bool (Qmin' (b + i) mb - b + (Qmin' (f + i) mf - f) + b + f) tc
+   then Qmin' (b + i) mb - b + (Qmin' (f + i) mf - f) else tc - b - f) -
+  (if Qle_bool (Qmin' (b + i) mb - b + (Qmin' (f + i) mf - f) + b + f) tc
+   then Qmin' (b + i) mb - b + (Qmin' (f + i) mf - f) else tc - b - f) *
+  ((Qmin' (b + i) mb - b) / (Qmin' (b + i) mb - b + (Qmin' (f + i) mf - f) + (1 # 1000000000))))
+  (Qmin' (f + i) mf - f))). lra.
+Qed.
+
+Lemma increase_month_biofuel_ge b f i mb mf tc : b <= fst (increase_month b f i mb mf tc).
+Proof. unfold increase_month; simpl. match goal with |- _ <= _ + Qmax0 ?x => generalize (Qmax0_nonneg x) end. lra. Qed.
+
+Lemma charge_ge_eaten r1 eaten b : eaten <= charge_month r1 eaten b.
+Proof. unfold charge_month. destruct r1. apply increase_month_feed_ge. apply Qle_refl. Qed.
+
+(* no increase requested and nothing eaten: nothing charged, whatever the ceilings *)
+Lemma increase_month_zero b mb mf tc : snd (increase_month b 0 0 mb mf tc) == 0.
+Proof.
+  unfold increase_month; simpl.
+  match goal with |- 0 + Qmax0 (Qmin' ?u ?v) == 0 => assert (H : Qmin' u v <= 0) end.
+  { eapply Qle_trans. apply Qmin'_le_r. generalize (Qmin'_le_l (0 + 0) mf). lra. }
+  rewrite (Qmax0_nonpos _ H). lra.
+Qed.
+
+Lemma increase_of_same k const meat : 0 < k -> 0 <= const -> increase_of k const meat meat == 0.
+Proof.
+  intros Hk Hc. unfold increase_of.
+  assert (H : (meat - meat) / 2 * k - const <= 0).
+  { assert ((meat - meat) / 2 * k == 0) by (field). lra. }
+  rewrite (Qmax0_nonpos _ H). field. lra.
+Qed.
+
+Lemma charge_month_proper r1 e e' b : e == e' ->
+  b_increase b == 0 -> e' == 0 -> charge_month r1 e b == 0.
+Proof.
+  intros He Hi Hz. unfold charge_month. destruct r1; [|lra].
+  assert (E : snd (increase_month (b_biofuel b) e (b_increase b) (b_max_biofuel b) (b_max_feed b) (b_total_crops b)) ==
+              snd (increase_month (b_biofuel b) 0 0 (b_max_biofuel b) (b_max_feed b) (b_total_crops b))).
+  { unfold increase_month; simpl.
+    assert (Ee : e == 0) by lra.
+    (* both sides: feed + Qmax0 (...) with feed == 0 and the Qmin' argument bounded above by min(0, mf) - 0 *)
+    match goal with |- e + Qmax0 (Qmin' ?u ?v) == 0 + Qmax0 (Qmin' ?u' ?v') =>
+      assert (H1 : Qmin' u v <= 0); [|assert (H2 : Qmin' u' v' <= 0)] end.
+    - eapply Qle_trans. apply Qmin'_le_r. generalize (Qmin'_le_l (e + b_increase b) (b_max_feed b)). lra.
+    - eapply Qle_trans. apply Qmin'_le_r. generalize (Qmin'_le_l (0 + 0) (b_max_feed b)). lra.
+    - rewrite (Qmax0_nonpos _ H1), (Qmax0_nonpos _ H2). lra. }
+  rewrite E. apply increase_month_zero.
+Qed.
+
+(* ------------------------------------------------------------------ decision tree *)
+Lemma round3_source_new t : round3_source t = NewRound3 <->
+  any_resource t = true /\ demand_zero t = false /\ round2_aborts t = false.
+Proof.
+  unfold round3_source, round2_consts_present, round1_run.
+  destruct (any_resource t), (demand_zero t), (round2_aborts t); simpl; split; intros; try discriminate;
+    try (repeat split; reflexivity); try (destruct H as (A & B & C); discriminate); auto.
+Qed.
+
+Lemma skip_branch_zero_feed t n f2 i : round2_consts_present t = false -> nth i (herd_feed_round3 t n f2) 0 = 0.
+Proof.
+  intro H. unfold herd_feed_round3, round3_source. rewrite H. apply zeros_nth.
+Qed.
+
+Lemma round3_available_nth f2 i : nth i (round3_available f2) 0 == nth i f2 0 * SHAVE.
+Proof.
+  unfold round3_available. revert i. induction f2; intros [|i]; simpl; try (unfold SHAVE; lra). apply IHf2.
+Qed.
